@@ -1238,7 +1238,10 @@ int EGLPNUM_TYPENAME_ILLwrite_mps (
 		EGLPNUM_TYPENAME_ILLprint_report (lp, "RANGES\n");
 		for (i = 0; i < lp->nrows; i++)
 		{
-			if ((lprows->rowcnt[i] != 0) && EGLPNUM_TYPENAME_EGlpNumIsNeqqZero (lp->rangeval[i]))
+			/* exactly the ranged rows get a RANGES entry: a zero range is still a
+			 * range (an equation), and rangeval[] of a row that is no longer ranged
+			 * is stale */
+			if ((lprows->rowcnt[i] != 0) && lp->sense[i] == 'R')
 			{
 				str = EGLPNUM_TYPENAME_EGlpNumGetStr(lp->rangeval[i]);
 				EGLPNUM_TYPENAME_ILLprint_report (lp, " RANGE    %s    %s\n", rownames[i], str);
